@@ -183,12 +183,6 @@ def run(tier, ev):
 
 
 def replay(case):
-    spec = case["spec"]
-    with warnings.catch_warnings():
-        warnings.simplefilter("ignore")
-        H = F.build(spec)
-        if case.get("monitor") == "closed":
-            _, v = check_closed(H)
-        else:
-            _, v = check(H, spec)
-    return [f"{m}: {msg}" for m, msg in v if m == case.get("monitor")]
+    # the whole staged evaluation (fresh object, then detour / morph / grow on the same object) is repeated
+    r = _work(case["spec"])
+    return [f"{m}: {msg}" for m, msg, sp in r["viols"] if m == case.get("monitor")]
